@@ -2,5 +2,6 @@ pub mod common;
 pub mod faults;
 pub mod c01;
 pub mod c02;
+pub mod c03;
 pub mod c07;
 pub mod c10;
